@@ -254,7 +254,7 @@ func (p *prop) genPol(rng *core.Rand, tier string) string {
 	return fmt.Sprintf("pol %s %s %s", live, fmtPolicies(pols), strings.Join(hs, ";"))
 }
 
-var siteNames = []string{"a.test", "b.test", "secret.test", "x.a.test", "localhost", "s1", "0", "test", "k.test"}
+var siteNames = []string{"a.test", "b.test", "secret.test", "x.a.test", "localhost", "s1", "0", "test", "k.test", "*.secret.test", "*.a.test", "*.*.test", "*"}
 
 func hostVariant(rng *core.Rand, x string, other string) string {
 	switch rng.Intn(22) {
@@ -356,6 +356,16 @@ func (p *prop) genEnf(rng *core.Rand) string {
 			target = sites[rng.Intn(len(sites))]
 		}
 		other := rng.Pick(siteNames)
+		// a wildcard site is addressed by an instance of its pattern (an empty label included)
+		for strings.Contains(target, "*") {
+			target = strings.Replace(target, "*", rng.Pick([]string{"x", "q", "", "X", "a.b", "y"}), 1)
+		}
+		for strings.Contains(other, "*") {
+			other = strings.Replace(other, "*", rng.Pick([]string{"x", "", "z"}), 1)
+		}
+		if rng.Chance(1, 15) {
+			target = rng.Pick([]string{"." + target, strings.Replace(target, ".", "..", 1)})
+		}
 		host := hostVariant(rng, target, other)
 		var sni string
 		switch x := rng.Intn(12); {
@@ -455,6 +465,17 @@ func (p *prop) genE2E(rng *core.Rand) string {
 		host = hostVariant(rng, sni, "secret.test")
 	}
 	k := rng.Intn(nE2ESrv)
+	if k == 3 {
+		sni = rng.Pick([]string{".secret.test", "x.secret.test", "X.Secret.Test", "..secret.test", "public.test", "y.x.secret.test", ".SECRET.test", "secret.test", "x..secret.test", "other.test"})
+		switch rng.Intn(4) {
+		case 0:
+			host = sni
+		case 1:
+			host = mixCase(rng, sni) + ":443"
+		case 2:
+			host = rng.Pick([]string{".secret.test", "x.secret.test", "q.secret.test:8443"})
+		}
+	}
 	hs, _ := p.handshake(k, sni)
 	if hs != "f" && hs != "p0" && hs != "p1" {
 		hs = "f" // Run prints what it observes; the disagreement is then visible
@@ -466,7 +487,7 @@ var malformed = []string{
 	"cf", "cf n", "cf n 2", "cf n 2/", "cf n 4/q", "cf n 2/q;2/r", "cf z 2/q", "cf n 2/Z", "cf n 2/q;", "cf n 2/q 1", "cf n 2/~q",
 	"ca", "ca 1", "ca 00000000", "ca 0100000", "ca 2000000", "ca 1300000", "ca 1030000", "ca 1000006", "ca 100000x", "ca 1000000 1",
 	"e2e", "e2e 0 f 2d 2d", "e2e 0 p1 7075626c69632e74657374", "e2e 1 p2 7075626c69632e74657374 2d", "e2e 0 p1 3132372e302e302e31 2d", "e2e 2 p1 612e 2d",
-	"e2e 1 p1 c3a8 2d", "e2e 0 f zz 2d", "e2e 0 f 7075626c69632e74657374 2d x", "e2e 3 f 7075626c69632e74657374 2d", "e2e f 7075626c69632e74657374 2d", "e2e 00 f 7075626c69632e74657374 2d",
+	"e2e 1 p1 c3a8 2d", "e2e 0 f zz 2d", "e2e 0 f 7075626c69632e74657374 2d x", "e2e 4 f 7075626c69632e74657374 2d", "e2e f 7075626c69632e74657374 2d", "e2e 00 f 7075626c69632e74657374 2d",
 	"", "pol", "enf", "xyz 1 2 3", "pol 0 . .", "pol 2 . 2d/0/6/0000000000000000", "pol 0 -/~/~", "pol 0 -/~ 2d/0/6/0000000000000000",
 	"pol 0 x/~/~ 2d/0/6/0000000000000000", "pol 0 dd/~/~ 2d/0/6/0000000000000000", "pol 0 -/zz/~ 2d/0/6/0000000000000000",
 	"pol 0 -/7b/~ 2d/0/6/0000000000000000", "pol 0 -/c3a8/~ 2d/0/6/0000000000000000", "pol 0 -/~/ba 2d/0/6/0000000000000000",
